@@ -710,6 +710,148 @@ pub fn part_crash(depth: usize, second_depth: usize, shard: u64, nshards: u64, d
     out
 }
 
+// ------------------------------------------------------------------------------------------------
+// (c) the block-keyed table alone, with arbitrary keys (not only appended ones)
+// ------------------------------------------------------------------------------------------------
+
+#[derive(Clone, Debug, PartialEq, Eq, Hash)]
+enum BOp {
+    Set(u64, u64),
+    Commit,
+    Discard,
+    Reopen,
+    Rollback(u64),
+}
+
+pub struct PartC {
+    pub states: u64,
+    pub transitions: u64,
+    pub depth: usize,
+    pub rollbacks: u64,
+    pub violation: Option<(String, Value)>,
+    pub complete: bool,
+}
+
+/// BFS over (write cache, disk rows) of a real `BlockDatabase<U64ED>`; the model is two ordered maps. Every state is
+/// re-created on the real RocksDB-backed table by wipe + replay; point reads of keys 0..=6 and `last_key` are
+/// compared after every operation.
+pub fn part_c(depth: usize, deadline: Instant) -> PartC {
+    type M = (BTreeMap<u64, u64>, BTreeMap<u64, u64>);
+    let mut out = PartC { states: 0, transitions: 0, depth: 0, rollbacks: 0, violation: None, complete: true };
+    let mut ops: Vec<BOp> = Vec::new();
+    for k in [1u64, 2, 3, 5] {
+        for v in [1u64, 2] {
+            ops.push(BOp::Set(k, v));
+        }
+    }
+    ops.extend([BOp::Commit, BOp::Discard, BOp::Reopen]);
+    for b in [0u64, 1, 2, 4] {
+        ops.push(BOp::Rollback(b));
+    }
+    let dir = fresh_dir();
+    let mut bdb: Option<BlockDatabase<U64ED>> = Some(BlockDatabase::new(&dir, "c").expect("open"));
+    let apply_model = |m: &mut M, op: &BOp| match op {
+        BOp::Set(k, v) => {
+            m.0.insert(*k, *v);
+        }
+        BOp::Commit => {
+            for (k, v) in m.0.clone() {
+                m.1.insert(k, v);
+            }
+        }
+        BOp::Discard | BOp::Reopen => m.0.clear(),
+        BOp::Rollback(b) => {
+            m.0.retain(|k, _| *k <= *b);
+            m.1.retain(|k, _| *k <= *b);
+        }
+    };
+    let mut seen: HashSet<M> = HashSet::new();
+    let mut frontier: Vec<(Vec<BOp>, M)> = vec![(vec![], (BTreeMap::new(), BTreeMap::new()))];
+    seen.insert(frontier[0].1.clone());
+    for d in 1..=depth {
+        let mut next = Vec::new();
+        for (path, m0) in &frontier {
+            for op in &ops {
+                if Instant::now() > deadline {
+                    out.complete = false;
+                    out.states = seen.len() as u64;
+                    let _ = std::fs::remove_dir_all(&dir);
+                    return out;
+                }
+                // re-create the state on the real table, then apply the operation
+                bdb.as_mut().unwrap().verif_wipe();
+                let mut p = path.clone();
+                p.push(op.clone());
+                let mut res: Result<(), String> = Ok(());
+                for o in &p {
+                    let r = catch_unwind(AssertUnwindSafe(|| -> Result<(), String> {
+                        match o {
+                            BOp::Set(k, v) => bdb.as_mut().unwrap().set(*k, U64ED::from(*v)),
+                            BOp::Commit => bdb.as_mut().unwrap().commit().map_err(|e| e.to_string())?,
+                            BOp::Discard => bdb.as_mut().unwrap().clear_cache(),
+                            BOp::Reopen => {
+                                bdb = None;
+                                bdb = Some(BlockDatabase::new(&dir, "c").map_err(|e| e.to_string())?);
+                            }
+                            BOp::Rollback(b) => bdb.as_mut().unwrap().reorg(*b).map_err(|e| e.to_string())?,
+                        }
+                        Ok(())
+                    }));
+                    match r {
+                        Ok(Ok(())) => {}
+                        Ok(Err(e)) => res = Err(e),
+                        Err(pn) => res = Err(format!("panicked: {}", panic_text(&pn))),
+                    }
+                    if res.is_err() {
+                        break;
+                    }
+                }
+                out.transitions += 1;
+                if matches!(op, BOp::Rollback(_)) {
+                    out.rollbacks += 1;
+                }
+                let mut m = m0.clone();
+                apply_model(&mut m, op);
+                if res.is_ok() {
+                    let t = bdb.as_ref().unwrap();
+                    for k in 0..=6u64 {
+                        let got = t.get(k).map(|v| v.map(|x| x.uint.to::<u64>())).map_err(|e| e.to_string());
+                        let want = m.0.get(&k).or(m.1.get(&k)).cloned();
+                        if got != Ok(want) {
+                            res = Err(format!("point read of key {} = {:?}, a plain map says {:?}", k, got, want));
+                            break;
+                        }
+                    }
+                    if res.is_ok() {
+                        let got = t.last_key().map_err(|e| e.to_string());
+                        let want = m.0.keys().chain(m.1.keys()).max().cloned();
+                        if got != Ok(want) {
+                            res = Err(format!("last_key = {:?}, a plain map says {:?}", got, want));
+                        }
+                    }
+                }
+                if let Err(e) = res {
+                    out.violation = Some((format!("block-keyed table: {}", e), json!({"component": "BlockDatabase", "ops": format!("{:?}", p)})));
+                    let _ = std::fs::remove_dir_all(&dir);
+                    return out;
+                }
+                if seen.insert(m.clone()) && d < depth {
+                    next.push((p, m));
+                }
+            }
+        }
+        out.depth = d;
+        out.states = seen.len() as u64;
+        frontier = next;
+        if frontier.is_empty() {
+            break;
+        }
+    }
+    drop(bdb);
+    let _ = std::fs::remove_dir_all(&dir);
+    out
+}
+
 pub fn run(tier: &str, seed: u64) -> i32 {
     let t0 = Instant::now();
     let thorough = tier == "thorough";
@@ -719,8 +861,11 @@ pub fn run(tier: &str, seed: u64) -> i32 {
     // part (b) in a thread (its own scratch directory), part (a) here
     let dl = t0 + budget;
     let hb = std::thread::spawn(move || part_b(db, dl));
+    let dc = if thorough { 8 } else { 6 };
+    let hc = std::thread::spawn(move || part_c(dc, dl));
     let a = part_a(da, dl);
     let b = hb.join().expect("part b");
+    let c = hc.join().expect("part c");
     let mut ev = Evidence::new("C13", tier, seed, "model_checking");
     let mut violations = Vec::new();
     if let Some((e, v)) = &a.violation {
@@ -729,13 +874,16 @@ pub fn run(tier: &str, seed: u64) -> i32 {
     if let Some((e, v)) = &b.violation {
         violations.push(("cached-database".to_string(), e.clone(), v.clone()));
     }
+    if let Some((e, v)) = &c.violation {
+        violations.push(("block-table".to_string(), e.clone(), v.clone()));
+    }
     let mut replay_paths = Vec::new();
     for (k, e, v) in &violations {
         let viol = crate::explore::Violation { property: "C13".into(), kind: k.clone(), scenario: "store".into(), start: "empty".into(), path: vec![v["ops"].as_str().unwrap_or("").to_string()], steps: vec![], detail: format!("{} | {}", e, v) };
         replay_paths.push((crate::evidence::write_replay(&viol), viol));
     }
     ev.coverage = json!({
-        "states": a.states + b.states, "transitions": a.transitions + b.transitions,
+        "states": a.states + b.states + c.states, "transitions": a.transitions + b.transitions + c.transitions,
         // every state of part (b) is re-created on the real RocksDB-backed component by wipe + replay of its operation list
         "traces_validated_against_impl": b.transitions,
         "samples": [json!({"part": "a", "ops": "Set(1) Set(2) Unset Next Skip(W-1) Reorg(1..W+2; on the live object and on decode(encode(object))) from 7 start states"}), json!({"part": "b", "paths": b.sample})],
@@ -743,15 +891,17 @@ pub fn run(tier: &str, seed: u64) -> i32 {
                    "reorgs_within_window_checked": a.reorg_within, "deeper_reorgs_loud": a.reorg_deeper_loud, "deeper_reorgs_right": a.reorg_deeper_right, "max_versions_seen": a.max_versions},
         "part_b": {"component": "BlockCachedDatabase<U64ED,U64ED> + BlockDatabase<U64ED> on RocksDB", "states": b.states, "paths_executed": b.transitions, "depth_completed": b.depth, "depth_bound": db, "complete": b.complete, "reorgs": b.reorgs,
                    "checked_in_every_state": "latest for 4 keys, get_range for 15 (start,end) pairs (complete, ordered), all(), <= W+1 versions, block table get / last_key"},
-        "evaluations": a.transitions + b.transitions, "distinct_nontrivial": a.states + b.states,
+        "part_c": {"component": "BlockDatabase<U64ED> on RocksDB alone, arbitrary keys", "ops": "Set(k in {1,2,3,5}, v in {1,2}) Commit Discard Reopen Rollback(0,1,2,4)", "states": c.states, "paths_executed": c.transitions, "depth_completed": c.depth, "depth_bound": dc, "complete": c.complete, "rollbacks": c.rollbacks,
+                   "checked_after_every_operation": "point reads of keys 0..=6 and last_key against two ordered maps (write cache, disk)"},
+        "evaluations": a.transitions + b.transitions + c.transitions, "distinct_nontrivial": a.states + b.states + c.states,
         "rule": "explicit-state search; a state is distinct by (implementation bytes / database rows, current block, reference model)",
-        "exhaustive_within_bounds": a.complete && b.complete,
+        "exhaustive_within_bounds": a.complete && b.complete && c.complete,
     });
     ev.assumptions = vec!["Appendix D caller contract: a table is only rolled back to blocks within W of the highest block it has seen".into(), "RocksDB trusted".into()];
     ev.violations = violations.len() as i64;
     ev.wall_s = t0.elapsed().as_secs_f64();
     ev.write();
-    println!("C13 {}: part a states={} transitions={} depth={} (within-window reorgs {}, deeper loud {}, deeper right {}, max versions {}); part b states={} paths={} depth={} reorgs={}; wall={:.1}s", tier, a.states, a.transitions, a.depth, a.reorg_within, a.reorg_deeper_loud, a.reorg_deeper_right, a.max_versions, b.states, b.transitions, b.depth, b.reorgs, ev.wall_s);
+    println!("C13 {}: part a states={} transitions={} depth={} (within-window reorgs {}, deeper loud {}, deeper right {}, max versions {}); part b states={} paths={} depth={} reorgs={}; part c states={} paths={} depth={}; wall={:.1}s", tier, a.states, a.transitions, a.depth, a.reorg_within, a.reorg_deeper_loud, a.reorg_deeper_right, a.max_versions, b.states, b.transitions, b.depth, b.reorgs, c.states, c.transitions, c.depth, ev.wall_s);
     crate::inst::cleanup_scratch();
     if !violations.is_empty() {
         for (p, v) in &replay_paths {
